@@ -386,6 +386,12 @@ Definition stake_outputs (pk amount collected : N) (should_break : bool) : list 
      (if 0 <? remainder then [fresh_slip pk remainder TY_NORMAL] else [])
    else []).
 
+(* Transaction::sign (called by create_staking_transaction) numbers the outputs *)
+Definition set_idx (i : N) (s : slip) : slip :=
+  mkSlip (s_pk s) (s_amt s) i (s_bid s) (s_txo s) (s_ty s) (s_key s).
+Fixpoint index_from (i : N) (l : list slip) : list slip :=
+  match l with [] => [] | s :: t => set_idx i s :: index_from (i + 1) t end.
+
 (* None = Err(NotFound) *)
 Definition create_staking (dbg : bool) (w : wallet) (sorder uorder : list key)
            (amount unlocked lastvalid : N) : res (wallet * option btx) :=
@@ -402,12 +408,12 @@ Definition create_staking (dbg : bool) (w : wallet) (sorder uorder : list key)
     Ok (mkW (w_pk w) (w_slips w) (remove_all sel2 (w_unspent w)) (remove_all sel1 (w_staking w))
             bal (w_pending w),
         Some (mkBT (cap255 (map slip_of_key (sel1 ++ sel2)))
-                   (cap255 (stake_outputs (w_pk w) amount total should_break))))
+                   (index_from 0 (cap255 (stake_outputs (w_pk w) amount total should_break)))))
   else
     Ok (mkW (w_pk w) (w_slips w) (w_unspent w) (remove_all sel1 (w_staking w))
             (w_balance w) (w_pending w),
         Some (mkBT (cap255 (map slip_of_key sel1))
-                   (cap255 (stake_outputs (w_pk w) amount collected false)))).
+                   (index_from 0 (cap255 (stake_outputs (w_pk w) amount collected false))))).
 
 (* ---- operations ---- *)
 Inductive op :=
@@ -540,3 +546,52 @@ Definition spendable_ty (ty : N) : bool := negb (ty =? TY_BLOCKSTAKE) && negb (t
 (* the wallet's view of the ledger: spendable, of my key, inside the window *)
 Definition ledger_mine (pk gp latest : N) (u : list key) : list key :=
   filter (fun k => (k_pk k =? pk) && spendable_ty (k_ty k) && (latest - gp <=? k_bid k)) u.
+
+(* ---- a node on a chain without reorganisation ----
+   What Blockchain::add_block does for one more block on the tip: the wallet winds
+   the block, the ledger winds it, and once the chain is longer than 2 * gp the
+   block 2 * gp back is purged (Wallet::delete_block).  Between blocks the wallet
+   builds transactions with the node's latest block id.  [c_committed] records the
+   outputs the wallet selected for them (ghost). *)
+Inductive cop :=
+| CBlock (b : block)
+| CCreate (order : list key) (keys payments : list N) (fee : N).
+
+Record cstate := mkC {
+  c_w : wallet;
+  c_u : list key;
+  c_top : N;
+  c_committed : list key;
+  c_blocks : list block }.
+
+Definition cinit (pk : N) : cstate := mkC (init pk) [] 0 [] [].
+
+Definition find_block (id : N) (bs : list block) : option block :=
+  find (fun b => b_id b =? id) bs.
+
+Definition chain_step (dbg : bool) (gp : N) (st : cstate) (o : cop) : res cstate :=
+  match o with
+  | CBlock b =>
+      do w1 <- on_chain_reorganization dbg (c_w st) b true gp;
+      do w2 <- (if 2 * gp <? b_id b then
+                  match find_block (b_id b - 2 * gp) (c_blocks st) with
+                  | Some p => delete_block dbg w1 p
+                  | None => Ok w1
+                  end
+                else Ok w1);
+      Ok (mkC w2 (ledger_wind (c_u st) b) (b_id b) (c_committed st) (b :: c_blocks st))
+  | CCreate order keys payments fee =>
+      if enumerates order (w_unspent (c_w st)) then
+        do r <- create dbg (c_w st) order keys payments fee (c_top st) gp;
+        Ok (mkC (fst r) (c_u st) (c_top st)
+                (filter (fun k => negb (kmem k (w_unspent (fst r)))) (w_unspent (c_w st))
+                 ++ c_committed st)
+                (c_blocks st))
+      else Err
+  end.
+
+Fixpoint chain_run (dbg : bool) (gp : N) (st : cstate) (ops : list cop) : res cstate :=
+  match ops with
+  | [] => Ok st
+  | o :: t => do st' <- chain_step dbg gp st o; chain_run dbg gp st' t
+  end.
